@@ -412,7 +412,8 @@ class OutdoorCrops:
     ):
         if self.ADD_OUTDOOR_GROWING:
             if constants_for_params["OG_USE_BETTER_ROTATION"]:
-                crops_produced = np.array([0] * self.NMONTHS)
+                # float array: an integer array would truncate every month to whole billions of kcals
+                crops_produced = np.zeros(self.NMONTHS)
 
                 hd = (
                     constants_for_params["INITIAL_HARVEST_DURATION_IN_MONTHS"]
